@@ -96,7 +96,7 @@ func c16Bases(c *hc.Ctx) ([]baseDoc, []baseDoc, error) {
 			return nil, nil, fmt.Errorf("%s: %w", n, err)
 		}
 		full = append(full, baseDoc{n, t})
-		small = append(small, baseDoc{n + "[:3]", truncateMatrices(t, 3)})
+		small = append(small, baseDoc{n + "[:2]", truncateMatrices(t, 2)})
 	}
 	if raw, err := testdocRaw(c); err == nil {
 		if t, err := parseJ(raw); err == nil {
@@ -775,7 +775,7 @@ func c16Obs(o c16Outcome) (string, string) {
 	}
 }
 
-func c16Oracle(c *hc.Ctx, name string, muts []string, tree *J, doc []byte, o c16Outcome, builtinOriginal []byte) {
+func c16Oracle(c *violations, name string, muts []string, tree *J, doc []byte, o c16Outcome, builtinOriginal []byte) {
 	in := map[string]any{"base": name, "mutations": muts, "document": string(doc)}
 	rs := malformed(tree)
 	// never a panic
@@ -792,12 +792,12 @@ func c16Oracle(c *hc.Ctx, name string, muts []string, tree *J, doc []byte, o c16
 		if kf == "F6c" {
 			what = "a pointOfOrigin / lowerLeft / upperRight array with more than 2 elements panics inside the decoding library (F6c)"
 		}
-		c.Violate(hc.Violation{What: what, KnownFinding: kf, Input: in, Observed: "panic: " + msg, Expected: "an error"})
+		c.add(hc.Violation{What: what, KnownFinding: kf, Input: in, Observed: "panic: " + msg, Expected: "an error"})
 		return
 	}
 	if o.res.Kind == "error" {
 		if builtinOriginal != nil {
-			c.Violate(hc.Violation{What: "a built-in tile matrix set document does not decode", Input: in, Observed: o.res.Msg})
+			c.add(hc.Violation{What: "a built-in tile matrix set document does not decode", Input: in, Observed: o.res.Msg})
 		}
 		return
 	}
@@ -820,10 +820,10 @@ func c16Oracle(c *hc.Ctx, name string, muts []string, tree *J, doc []byte, o c16
 		for _, r := range rs {
 			all = append(all, r.What)
 		}
-		c.Violate(hc.Violation{What: what, KnownFinding: kf, Input: in, Observed: "decoded without error; re-encoded: " + trunc(string(o.enc1), 400), Expected: map[string]any{"error because": all}})
+		c.add(hc.Violation{What: what, KnownFinding: kf, Input: in, Observed: "decoded without error; re-encoded: " + trunc(string(o.enc1), 400), Expected: map[string]any{"error because": all}})
 	}
 	if o.encK != "ok" {
-		c.Violate(hc.Violation{What: "a decoded tile matrix set does not encode", Input: in, Observed: o.encM})
+		c.add(hc.Violation{What: "a decoded tile matrix set does not encode", Input: in, Observed: o.encM})
 		return
 	}
 	wrapCause := false
@@ -839,12 +839,12 @@ func c16Oracle(c *hc.Ctx, name string, muts []string, tree *J, doc []byte, o c16
 		if wrapCause {
 			kf = "F6b"
 		}
-		c.Violate(hc.Violation{What: "the encoding of a decoded document does not decode again", KnownFinding: kf, Input: in, Observed: r2.Kind + ": " + r2.Msg})
+		c.add(hc.Violation{What: "the encoding of a decoded document does not decode again", KnownFinding: kf, Input: in, Observed: r2.Kind + ": " + r2.Msg})
 		return
 	}
 	enc2, k2, m2 := encodeTMS(r2.Value)
 	if k2 != "ok" {
-		c.Violate(hc.Violation{What: "second encoding fails", Input: in, Observed: m2})
+		c.add(hc.Violation{What: "second encoding fails", Input: in, Observed: m2})
 		return
 	}
 	if !bytes.Equal(o.enc1, enc2) {
@@ -852,25 +852,26 @@ func c16Oracle(c *hc.Ctx, name string, muts []string, tree *J, doc []byte, o c16
 		if wrapCause {
 			kf, what = "F6b", "a wrapped negative unsigned member re-encodes to a different number on every round trip (F6b)"
 		}
-		c.Violate(hc.Violation{What: what, KnownFinding: kf, Input: in, Observed: map[string]string{"first": trunc(string(o.enc1), 600), "second": trunc(string(enc2), 600)}})
+		c.add(hc.Violation{What: what, KnownFinding: kf, Input: in, Observed: map[string]string{"first": trunc(string(o.enc1), 600), "second": trunc(string(enc2), 600)}})
 	} else if !reflect.DeepEqual(*o.res.Value, *r2.Value) {
 		a, b := *o.res.Value, *r2.Value
 		normalizeNilEmpty(&a)
 		normalizeNilEmpty(&b)
 		if reflect.DeepEqual(a, b) {
-			c.Violate(hc.Violation{What: "an empty keywords / variableMatrixWidths array decodes to an empty non-nil slice, is omitted by the encoder and decodes to nil the second time: the two values are not reflect.DeepEqual (same encoding) (F6d)",
+			c.add(hc.Violation{What: "an empty keywords / variableMatrixWidths array decodes to an empty non-nil slice, is omitted by the encoder and decodes to nil the second time: the two values are not reflect.DeepEqual (same encoding) (F6d)",
 				KnownFinding: "F6d", Input: in, Observed: "values differ only in nil vs. empty slices"})
 		} else {
-			c.Violate(hc.Violation{What: "decode(encode(decode d)) is not equal to decode d", Input: in, Observed: fmt.Sprintf("%+v  vs  %+v", a, b)})
+			c.add(hc.Violation{What: "decode(encode(decode d)) is not equal to decode d", Input: in, Observed: fmt.Sprintf("%+v  vs  %+v", a, b)})
 		}
 	}
 	if builtinOriginal != nil && !jsonSemEq(builtinOriginal, o.enc1) {
-		c.Violate(hc.Violation{What: "the re-encoded built-in document is not semantically equal to the original", Input: in, Observed: trunc(string(o.enc1), 600)})
+		c.add(hc.Violation{What: "the re-encoded built-in document is not semantically equal to the original", Input: in, Observed: trunc(string(o.enc1), 600)})
 	}
 }
 
 func runC16(c *hc.Ctx) error {
-	c.CorrInit("Texel.Corr.C16", "theories/Corr/C16.v", c.N(260, 1500))
+	vs := newViolations(c)
+	var buf bufferedCases
 	c.Sum.Rule = "documents = the built-in documents (whole, unmutated), and their 3-matrix prefixes, the test document and 4 synthetic documents covering every optional member and the 3 CRS forms, each with 1-3 structural mutations (delete member / array element, change type, change value from pools of boundary numbers and strings, insert / duplicate array element, duplicate key, add or replace a CRS form, add a member) plus the systematic single replacement of every member of the kitchen-sink document by every pool value; distinct = distinct document text; non-trivial = mutated and (decodes, or fails for a reason other than a missing crs/tileMatrices)"
 	c.Sum.Oracle = "on the implementation (json.Unmarshal / json.Marshal of tms20.TileMatrixSet, panics recovered): never a panic; a document that an independent schema check (types, presence, positive integer sizes, 2-element points, integer-like ids, a CRS in one of three forms) calls malformed is rejected with an error; an accepted document d satisfies decode(encode(decode d)) reflect.DeepEqual decode d and encode is byte-stable; built-in documents re-encode semantically equal (keys unordered, numbers by float64 value) to the original"
 	c.Sum.Partial = "the general round-trip theorem carries the hypothesis that unsigned members are exactly representable (violated only through F6b); C16_refuted_* theorems state what the code as it stands gets wrong (F6b, F6c, F6d)"
@@ -918,7 +919,7 @@ func runC16(c *hc.Ctx) error {
 		} else {
 			c.Nontrivial(string(doc))
 		}
-		c16Oracle(c, name, muts, tree, doc, o, builtinOriginal)
+		c16Oracle(vs, name, muts, tree, doc, o, builtinOriginal)
 		desc := map[string]any{"base": name, "mutations": muts, "document": trunc(string(doc), 3000), "observed": kind}
 		if kind == "error" {
 			desc["error"] = trunc(o.res.Msg, 300)
@@ -926,7 +927,7 @@ func runC16(c *hc.Ctx) error {
 		if kind == "ok" {
 			desc["reencoded"] = trunc(string(o.enc1), 3000)
 		}
-		c.Case(fmt.Sprintf("MkCase %s %s", docTerm, obs), desc)
+		buf.add(fmt.Sprintf("MkCase %s %s", docTerm, obs), desc)
 		if len(muts) > 0 && len(c.Sum.Samples) < 6 && c.Rng.Intn(40) == 0 {
 			c.Sample(map[string]any{"base": name, "mutations": muts, "observed": kind})
 		}
@@ -934,7 +935,7 @@ func runC16(c *hc.Ctx) error {
 
 	// 1. built-in documents, whole and unmutated (the model reads them from the regenerated TmsData.v)
 	for _, b := range full {
-		raw, _ := builtinRaw(c, strings.TrimSuffix(b.name, "[:3]"))
+		raw, _ := builtinRaw(c, b.name)
 		emit(b.name, nil, b.tree, "(DGen "+coqStr(b.name)+")", raw)
 	}
 	// 2. the small bases unmutated
@@ -960,7 +961,7 @@ func runC16(c *hc.Ctx) error {
 	}
 	sysEvery := 1
 	if c.Quick() {
-		sysEvery = 3
+		sysEvery = 6
 	}
 	cnt := 0
 	for _, b := range sinks {
@@ -989,7 +990,7 @@ func runC16(c *hc.Ctx) error {
 		}
 	}
 	// 4. random structural mutations, depth 1..3
-	n := c.N(1800, 40000)
+	n := c.N(1300, 24000)
 	if c.Search {
 		n *= 5
 	}
@@ -1008,5 +1009,6 @@ func runC16(c *hc.Ctx) error {
 		}
 		emit(b.name, muts, t, "(DLit "+t.coq()+")", nil)
 	}
+	buf.flush(c, "Texel.Corr.C16", "theories/Corr/C16.v", 16)
 	return nil
 }
